@@ -214,6 +214,8 @@ func handlePanic(t *T, recovered any) {
 	err, isError := recovered.(error)
 	switch {
 	case isError && errors.Is(err, errFailNow):
+		// FailNow has already marked the failure, make sure anything else matching is not a pass
+		t.Fail()
 		return
 	case isError:
 		stack := debug.Stack()
